@@ -204,7 +204,9 @@ func c10LongChains(c *ev.Ctx, blocks int) {
 					}
 					lsteps++
 					var sig, what string
-					if p := safely(func() { sig, what = c10CompareAll(s, fmt.Sprintf("long chain (pattern %d/%d, reopen after block %d) ", j.a, j.b, j.reopenAt)) }); p != nil {
+					if p := safely(func() {
+						sig, what = c10CompareAll(s, fmt.Sprintf("long chain (pattern %d/%d, reopen after block %d) ", j.a, j.b, j.reopenAt))
+					}); p != nil {
 						sig, what = "panic", fmt.Sprintf("panic: %v", p)
 					}
 					if sig != "" {
